@@ -733,8 +733,11 @@ Fixpoint alt_inl (i : inline) : bytes :=
   | IFoot _ => []
   end.
 
-Definition r_title (d : dest) : bytes :=
-  match d_title d with None => [] | Some (_, t) => B " title=""" ++ escape_spec t ++ [x22] end.
+Definition title_of (d : dest) : bytes := match d_title d with None => [] | Some (_, t) => t end.
+(* a title attribute is printed when there is a (non-empty) title *)
+Definition title_attr (t : bytes) : bytes :=
+  match t with [] => [] | _ => B " title=""" ++ escape_spec t ++ [x22] end.
+Definition r_title (d : dest) : bytes := title_attr (title_of d).
 Definition r_link (d : dest) (body : bytes) : bytes :=
   B "<a href=""" ++ escape_href_spec (d_url d) ++ [x22] ++ r_title d ++ [x3e] ++ body ++ B "</a>".
 Definition r_img (d : dest) (alt : bytes) : bytes :=
@@ -742,8 +745,8 @@ Definition r_img (d : dest) (alt : bytes) : bytes :=
 Definition suffix_n (n : N) : bytes := if (1 <? n)%N then [x2d] ++ dec n else [].
 (* footnote reference as cmark-gfm prints it *)
 Definition r_footref (lb : bytes) (num ix : N) : bytes :=
-  B "<sup class=""footnote-ref""><a href=""#fn-" ++ escape_href_spec lb ++ B """ id=""fnref-" ++
-  escape_href_spec (lb ++ suffix_n num) ++ B """ data-footnote-ref>" ++ dec ix ++ B "</a></sup>".
+  B "<sup class=""footnote-ref""><a href=""#fn-" ++ escape_href_spec lb ++ B """ id=""" ++
+  escape_href_spec (B "fnref-" ++ lb ++ suffix_n num) ++ B """ data-footnote-ref>" ++ dec ix ++ B "</a></sup>".
 
 Fixpoint r_inl (E : env) (k : nat) (i : inline) {struct i} : bytes :=
   match i with
@@ -876,8 +879,6 @@ Definition ref_html (d : doc) : bytes :=
 (* ====================================================================== intended tree *)
 Definition sp0 : sourcepos := mkSp 0 0 0 0.
 Definition nd (v : node_value) (ch : list node) : node := Node v sp0 ch.
-Definition title_of (d : dest) : bytes := match d_title d with None => [] | Some (_, t) => t end.
-
 Fixpoint t_inl (E : env) (k : nat) (i : inline) {struct i} : node :=
   match i with
   | IStr w => nd (Text w) []
